@@ -153,6 +153,32 @@ def corrupt(name: str, kind: str, pos: int) -> Path | None:
                         s_['synset'] = 'no-such-synset'
                         done = True
                     k += 1
+    elif kind in ('sense_synset_foreign', 'synset_rel_foreign', 'sense_rel_foreign'):
+        # the reference names an id that exists - in ANOTHER lexicon (a:1, installed in the
+        # scenarios that use these kinds); it is as unresolvable as an id nobody has
+        if kind == 'sense_synset_foreign':
+            for e in lex['entries']:
+                for s_ in e.get('senses', []):
+                    if not s_.get('external'):
+                        if k == pos:
+                            s_['synset'] = 'a-s1'
+                            done = True
+                        k += 1
+        elif kind == 'synset_rel_foreign':
+            for ss in lex['synsets']:
+                for r in ss.get('relations', []):
+                    if k == pos:
+                        r['target'] = 'a-s1'
+                        done = True
+                    k += 1
+        else:
+            for e in lex['entries']:
+                for s_ in e.get('senses', []):
+                    for r in s_.get('relations', []):
+                        if k == pos:
+                            r['target'] = 'a-w1-1'
+                            done = True
+                        k += 1
     elif kind == 'synset_rel':
         for ss in lex['synsets']:
             for r in ss.get('relations', []):
